@@ -16,7 +16,7 @@ CONSTANTS T, K,
           SD,          \* subset of T with SendDeletesOnConnFail
           RT,          \* "never" | "always": is watchRetryTimeout exceeded when a List fails
           MaxErr,      \* MaxErrorsPerRevision (5 in the code)
-          MaxMut, MaxFault, MaxEnv
+          MaxMut, MaxFault, MaxEnv, MaxHold
 
 VARIABLES pc, crev, ecount, full, cstat, res, inst, lpoll, wpoll, conn,   \* watcherCache, per type
           everconn,                 \* per type: lastSuccessfulConnTime has been set at least once
@@ -24,12 +24,15 @@ VARIABLES pc, crev, ecount, full, cstat, res, inst, lpoll, wpoll, conn,   \* wat
           nrev, evlog,              \* datastore: revision counter and mutation log per type
           rq, cstats, wsstat, started,   \* results channel, syncer's cacheStatuses, ws.status
           nmut, nfault, nenv, bad,
+          ubuf,                     \* the syncer's consolidation buffer (updates not yet handed to OnUpdates)
+          held, nhold,              \* consumer gate: "no" | "req" (the next callback will block) | "yes" (blocked in a callback)
           store, view, status, listed    \* P_WS
 cvars == <<pc, crev, ecount, full, cstat, res, inst, lpoll, wpoll, conn, everconn, wpos>>
 vars == <<pc, crev, ecount, full, cstat, res, inst, lpoll, wpoll, conn, everconn, wpos, nrev, evlog, rq, cstats, wsstat,
-          started, nmut, nfault, nenv, bad, store, view, status, listed>>
+          started, nmut, nfault, nenv, bad, ubuf, held, nhold, store, view, status, listed>>
 
 P == INSTANCE P_WS
+hvars == <<ubuf, held, nhold>>
 
 ZeroK == [k \in K |-> 0]
 RSt(t, s)   == [t |-> t, kind |-> "st", s |-> s, us |-> <<>>]
@@ -87,13 +90,13 @@ Init ==
     /\ conn = [t \in T |-> FALSE] /\ everconn = [t \in T |-> FALSE] /\ wpos = [t \in T |-> 0]
     /\ nrev = [t \in T |-> 0] /\ evlog = [t \in T |-> <<>>]
     /\ rq = <<>> /\ cstats = [t \in T |-> "wait"] /\ wsstat = "wait" /\ started = FALSE
-    /\ nmut = 0 /\ nfault = 0 /\ nenv = 0 /\ bad = FALSE
+    /\ nmut = 0 /\ nfault = 0 /\ nenv = 0 /\ bad = FALSE /\ ubuf = <<>> /\ held = "no" /\ nhold = 0
     /\ P!Init
 
 \* ---- internal steps ----------------------------------------------------------------------------------------------
 \* top of the loop in maybeResyncAndCreateWatcher, up to the List or Watch call
 CacheSync(t) ==
-    /\ pc[t] = "sync"
+    /\ pc[t] = "sync" /\ UNCHANGED hvars
     /\ LET f2 == full[t] \/ crev[t] = 0 IN
        IF f2
          THEN LET prevPoll == lpoll[t] \/ wpoll[t]
@@ -107,31 +110,51 @@ CacheSync(t) ==
     /\ UNCHANGED <<inst, conn, everconn, wpos, nrev, evlog, cstats, wsstat, started, nmut, nfault, nenv, bad,
                    store, view, status, listed>>
 
-CbS(s) == bad' = (bad \/ ~P!StatusOK(s)) /\ status' = s /\ UNCHANGED view
-CbU(us) == bad' = (bad \/ ~P!UpdOK(us)) /\ view' = P!ApplySeq(view, us) /\ UNCHANGED status
+\* a callback is being made: a requested hold takes effect (the consumer blocks inside it)
+Blocks == held' = (IF held = "req" THEN "yes" ELSE held) /\ UNCHANGED nhold
 
 SyncerStart ==
     /\ ~started /\ started' = TRUE
-    /\ CbS("wait")
+    /\ bad' = (bad \/ ~P!StatusOK("wait")) /\ status' = "wait" /\ UNCHANGED <<view, ubuf>>
+    /\ Blocks
     /\ UNCHANGED <<cvars, nrev, evlog, rq, cstats, wsstat, nmut, nfault, nenv, store, listed>>
 
 Agg(cs) == IF \A t \in T : cs[t] = "insync" THEN "insync"
            ELSE IF \A t \in T : cs[t] = "wait" THEN "wait" ELSE "resync"
 
+\* one iteration of the main loop / consolidation loop of watcherSyncer.run: updates are appended to the buffer;
+\* the buffer is flushed (OnUpdates) before an error is handled, before EVERY aggregated status change is
+\* announced, and when the results channel has been drained (end of the consolidation pass)
 SyncerPop ==
-    /\ started /\ rq # <<>>
-    /\ LET r == Head(rq) IN
-       /\ rq' = Tail(rq)
-       /\ CASE r.kind = "upd" -> CbU(r.us) /\ UNCHANGED <<cstats, wsstat>>
-            [] r.kind = "err" -> UNCHANGED <<cstats, wsstat, bad, status, view>>
-            [] r.kind = "st"  -> LET cs == [cstats EXCEPT ![r.t] = r.s] IN
-                                 /\ cstats' = cs
-                                 /\ IF Agg(cs) # wsstat
-                                      THEN CbS(Agg(cs)) /\ wsstat' = Agg(cs)
-                                      ELSE UNCHANGED <<wsstat, bad, status, view>>
+    /\ started /\ rq # <<>> /\ held # "yes"
+    /\ LET r == Head(rq)
+           last == Tail(rq) = <<>>
+           buf1 == IF r.kind = "upd" THEN ubuf \o r.us ELSE ubuf
+           cs == IF r.kind = "st" THEN [cstats EXCEPT ![r.t] = r.s] ELSE cstats
+           change == r.kind = "st" /\ Agg(cs) # wsstat
+           flush == buf1 # <<>> /\ (r.kind = "err" \/ change \/ last)
+           \* a flush forced by the end of the pass comes AFTER a status announced in this iteration
+           flushFirst == flush /\ (r.kind = "err" \/ change)
+           st1 == IF change THEN Agg(cs) ELSE status
+       IN /\ rq' = Tail(rq)
+          /\ cstats' = cs
+          /\ wsstat' = IF change THEN Agg(cs) ELSE wsstat
+          /\ ubuf' = IF flush THEN <<>> ELSE buf1
+          /\ view' = IF flush THEN P!ApplySeq(view, buf1) ELSE view
+          /\ status' = st1
+          /\ bad' = (bad \/ (flush /\ ~(IF flushFirst THEN P!UpdOK(buf1)
+                                                   ELSE (st1 # "wait" /\ P!DelsOK(view, buf1))))
+                          \/ (change /\ ~P!StatusOK(Agg(cs))))
+          /\ IF flush \/ change THEN Blocks ELSE UNCHANGED <<held, nhold>>
     /\ UNCHANGED <<cvars, nrev, evlog, started, nmut, nfault, nenv, store, listed>>
 
-Stable == started /\ rq = <<>> /\ \A t \in T : pc[t] # "sync"
+\* the consumer: block inside the next callback / let it return
+Hold == /\ held = "no" /\ nhold < MaxHold /\ held' = "req" /\ nhold' = nhold + 1
+        /\ UNCHANGED <<cvars, nrev, evlog, rq, cstats, wsstat, started, nmut, nfault, bad, ubuf, store, view, status, listed>>
+Release == /\ held # "no" /\ held' = "no"
+           /\ UNCHANGED <<cvars, nrev, evlog, rq, cstats, wsstat, started, nmut, nfault, bad, ubuf, nhold, store, view, status, listed>>
+
+Stable == started /\ (rq = <<>> \/ held = "yes") /\ \A t \in T : pc[t] # "sync"
 
 \* ---- environment decisions -------------------------------------------------------------------------------------------
 EnvOK == Stable /\ nenv < MaxEnv
@@ -139,7 +162,7 @@ Tick == nenv' = nenv + 1
 Fault == nfault < MaxFault /\ nfault' = nfault + 1
 
 Mutate(t, k, del) ==
-    /\ EnvOK /\ nmut < MaxMut /\ (del => store[t][k] # 0)
+    /\ UNCHANGED hvars /\ EnvOK /\ nmut < MaxMut /\ (del => store[t][k] # 0)
     /\ LET r == nrev[t] + 1 IN
        /\ nrev' = [nrev EXCEPT ![t] = r]
        /\ evlog' = [evlog EXCEPT ![t] = Append(@, [rev |-> r, k |-> k, v |-> IF del THEN 0 ELSE r])]
@@ -151,7 +174,7 @@ Mutate(t, k, del) ==
 TimedOut(t) == RT = "always" \/ ~everconn[t]
 
 ReplyList(t, how) ==
-    /\ EnvOK /\ pc[t] = "atList"
+    /\ UNCHANGED hvars /\ EnvOK /\ pc[t] = "atList"
     /\ how # "ok" => Fault
     /\ how = "ok" => UNCHANGED nfault
     /\ CASE how = "ok" ->
@@ -190,7 +213,7 @@ ReplyList(t, how) ==
     /\ UNCHANGED <<wpos, nrev, evlog, cstats, wsstat, started, nmut, bad>>
 
 ReplyWatch(t, how) ==
-    /\ EnvOK /\ pc[t] = "atWatch"
+    /\ UNCHANGED hvars /\ EnvOK /\ pc[t] = "atWatch"
     /\ how # "ok" => Fault
     /\ how = "ok" => UNCHANGED nfault
     /\ CASE how = "ok" ->
@@ -223,7 +246,7 @@ ReplyWatch(t, how) ==
 Pending(t) == { i \in 1..Len(evlog[t]) : evlog[t][i].rev > wpos[t] }
 
 Deliver(t) ==
-    /\ EnvOK /\ pc[t] = "watching" /\ Pending(t) # {}
+    /\ UNCHANGED hvars /\ EnvOK /\ pc[t] = "watching" /\ Pending(t) # {}
     /\ LET i == CHOOSE x \in Pending(t) : \A y \in Pending(t) : x <= y
            e == evlog[t][i]
        IN /\ Commit(t, Handle(Local(t), t, e.k, e.v, e.rev))
@@ -234,7 +257,7 @@ Deliver(t) ==
 
 \* leaving loopReadingFromWatcher: a fresh maybeResyncAndCreateWatcher starts with performFullResync = false
 WEvent(t, kind) ==
-    /\ EnvOK /\ pc[t] = "watching" /\ Fault
+    /\ UNCHANGED hvars /\ EnvOK /\ pc[t] = "watching" /\ Fault
     /\ CASE kind = "bookmark" ->
               /\ Pending(t) = {}
               /\ crev' = [crev EXCEPT ![t] = nrev[t]] /\ ecount' = [ecount EXCEPT ![t] = 0]
@@ -261,6 +284,7 @@ WKinds == {"bookmark", "expired", "error", "closed"}
 Next ==
     \/ SyncerStart
     \/ SyncerPop
+    \/ (EnvOK /\ Hold /\ Tick) \/ (EnvOK /\ Release /\ Tick)
     \/ \E t \in T : CacheSync(t)
     \/ \E t \in T, k \in K, d \in BOOLEAN : Mutate(t, k, d)
     \/ \E t \in T, h \in ListHows : ReplyList(t, h)
@@ -273,8 +297,8 @@ Spec == Init /\ [][Next]_vars
 \* ---- I => P ------------------------------------------------------------------------------------------------------------
 PropertyHolds == ~bad
 \* the environment is quiet: every watch open and drained, nothing in flight
-Quiet == Stable /\ \A t \in T : pc[t] = "watching" /\ Pending(t) = {}
+Quiet == Stable /\ rq = <<>> /\ ubuf = <<>> /\ held = "no" /\ \A t \in T : pc[t] = "watching" /\ Pending(t) = {}
 Converged == Quiet => P!ConvergedOK
 \* implementation sanity: the cache's map is what the stream said, once the results channel is drained
-CacheIsView == Stable => \A t \in T : res[t] = view[t]
+CacheIsView == (Stable /\ rq = <<>> /\ ubuf = <<>>) => \A t \in T : res[t] = view[t]
 =============================================================================
